@@ -52,9 +52,9 @@ def request_param(fn: FuncInfo) -> str:
 
 def run(ctx: Ctx, rep: Report) -> None:
     rep.rule("C03-R1", "every fetcher checks that each returned OID advances beyond the one it was requested from, before returning", floor=2)
-    rep.rule("C03-R2", "the progress guard is strict: equal and greater-or-equal orderings raise, only requested < retrieved passes", floor=6)
-    rep.rule("C03-R3", "the guard pairs requested[i] with retrieved[i]", floor=2)
-    rep.rule("C03-R4", "every fetch of the walk loop is covered: lenient mode ends the walk normally, strict mode re-raises", floor=4)
+    rep.rule("C03-R2", "the progress guard is strict: equal and greater-or-equal orderings raise, only requested < retrieved passes", floor=3)
+    rep.rule("C03-R3", "the guard pairs requested[i] with retrieved[i]", floor=1)
+    rep.rule("C03-R4", "every fetch of the walk loop is covered: lenient mode ends the walk normally, strict mode re-raises", floor=2)
     rep.rule("C03-R5", "the continuation list is renewed on every path to the back edge", floor=2)
     rep.assumptions += [
         "the OID universe the agent reveals is finite",
